@@ -7,6 +7,8 @@ LEVEL = "model_checking"
 
 
 def check(run):
+    import mc
+    mc.client_mc(run, "C09")
     scripts = F.outgoing(run.seed, run.tier)
     known = {k["key"]: k["text"] for k in lib.known_findings("C09")}
     nacc, rejected, events, final = B.check_family(run, "C09", scripts, "c09", kind="client", known=known)
